@@ -150,5 +150,105 @@ def lemmas(T, reg, ctx):
     return []
 
 
+def reader_between_effects(ctx):
+    """Bounded stand-in for the concurrent reader: the real finishing operations run on the real backends; a reader looks (status, then result)
+    right before every backend effect of the writer and after it, and, in separate runs, every single backend effect of the writer fails once.
+    What the reader may see: SUCCESS with exactly the returned value, FAILED with an exception of the same type and arguments, or not final
+    and then no value."""
+    from pyvc.prop import BoundedResult
+    from pynenc.invocation.status import InvocationStatus as S
+    from . import verif_tasks as vt
+    from .c03_more import Cut
+    from .realapp import new_invocation, real_app, runner_ctx
+    thorough = ctx.tier == "thorough"
+    res = BoundedResult("reader_between_effects", "real set_invocation_result / set_invocation_exception "
+                        "x values {small, large enough to be externalised, nested} / exceptions {with args, large args} x a reader polling right before backend effect k (every k) "
+                        "and after the operation, and x backend effect k failing once (every k); in-memory" + (" and SQLite" if thorough else "") +
+                        "; the reader's view is compared with the value / exception handed to the writer")
+    effects = [("state_backend", "_set_result"), ("state_backend", "_set_exception"), ("client_data_store", "_store"),
+               ("orchestrator", "_atomic_status_transition"), ("state_backend", "_add_histories")]
+    values = [("small", 42), ("large", "x" * 5000), ("nested", {"a": [1, 2, {"b": "y" * 3000}], "c": None})]
+    excs = [("args", vt.Other("boom", 7)), ("large-args", vt.Other("z" * 4000, 1))]
+
+    class Fault(Exception):
+        pass
+    n = 0
+    import threading
+    threading.excepthook = lambda args: None      # a fault injected into the history writer thread ends that thread: expected, keep stderr readable
+
+    def view(app, inv):
+        """what a reader sees now: ('value', v) | ('raised', type, args) | ('not-final',)"""
+        from pynenc import exceptions as ex
+        try:
+            reader = app.state_backend.get_invocation(inv.invocation_id)      # a reader has its own invocation object (no status cached by the writer)
+            st = app.orchestrator.get_invocation_status(inv.invocation_id)
+            v = reader.get_final_result()
+            return ("value", v, st.name)
+        except ex.InvocationError:
+            return ("not-final", None, None)
+        except Exception as e:      # noqa: BLE001
+            return ("raised", type(e).__name__, getattr(e, "args", None))
+
+    def acceptable(seen, kind, payload):
+        if seen[0] == "not-final":
+            return True
+        if kind == "result":
+            return seen[0] == "value" and seen[1] == payload
+        return seen[0] == "raised" and seen[1] == type(payload).__name__ and tuple(seen[2]) == tuple(payload.args)
+    for backend in (("mem", "sqlite") if thorough else ("mem",)):
+        for kind, (label, payload) in [("result", v) for v in values] + [("exception", e) for e in excs]:
+            for mode in ("reader", "fault"):
+                k = 0
+                while True:
+                    k += 1
+                    n += 1
+                    with real_app(backend) as app:
+                        for comp, meth in effects:
+                            getattr(app, comp)                      # instantiate
+                        B = runner_ctx("runner-B")
+                        inv = new_invocation(app, vt.add, x=1, y=2)
+                        list(app.orchestrator.get_invocations_to_run(1, B))
+                        app.orchestrator.set_invocation_status(inv.invocation_id, S.RUNNING, B)
+                        seen = []
+
+                        def action():
+                            if mode == "reader":
+                                seen.append(view(app, inv))
+                            else:
+                                raise Fault("storage fault injected")
+                        cut = Cut(app, k, action)
+                        cut_effects = effects
+                        import contracts.c03_more as _cm
+                        saved = _cm.EFFECTS
+                        _cm.EFFECTS = cut_effects
+                        try:
+                            with cut:
+                                try:
+                                    if kind == "result":
+                                        app.orchestrator.set_invocation_result(inv, payload, B)
+                                    else:
+                                        app.orchestrator.set_invocation_exception(inv, payload, B)
+                                except Fault:
+                                    pass
+                                except Exception as e:      # noqa: BLE001
+                                    seen.append(("writer-error", type(e).__name__, str(e)[:80]))
+                            total = cut.n
+                        finally:
+                            _cm.EFFECTS = saved
+                        app.state_backend.wait_for_all_async_operations()
+                        seen.append(view(app, inv))
+                        bad = [sv for sv in seen if sv[0] != "writer-error" and not acceptable(sv, kind, payload)]
+                        if bad and len(res.failures) < 8:
+                            res.failures.append({"what": f"{backend}: set_invocation_{kind}({label}) with " + (f"a reader right before backend effect #{k}" if mode == "reader" else
+                                                         f"backend effect #{k} failing") + f": the reader saw {str(bad[0])[:160]} (expected the handed-in {kind} or 'not final')",
+                                                 "input": {"backend": backend, "kind": kind, "payload": label, "mode": mode, "k": k}, "finding_key": f"{backend}:{kind}:{mode}"})
+                    if k > total:
+                        break
+    res.cases = n
+    res.distinct = n
+    res.samples = [{"kind": "result", "payload": "large", "mode": "reader", "k": 2}]
+    return res
+
+
 def bounded():
-    return []
+    return [reader_between_effects]
